@@ -124,7 +124,7 @@ def report(prop, tier, seed, results, bounded, kf, known_by_id, wall, a):
     lines = []
     for kid in sorted(known_present):
         k = known_by_id.get(kid, {})
-        if k.get("property") == prop:
+        if prop in k.get("properties", [k.get("property")]):
             lines.append(f"KNOWN-FINDING: property={prop} {kid}: {k.get('what', '')}")
     for v in violations:
         rp = v.get("replay") or {}
@@ -165,7 +165,7 @@ def report(prop, tier, seed, results, bounded, kf, known_by_id, wall, a):
         "covers_reached": len([o for o in obls if o["kind"] == "cover" and o["status"] == "discharged"]),
         "covers_with_native_differential_agreement": len([o for o in obls if o["kind"] == "cover" and (o.get("differential") or {}).get("agrees")]),
         "canaries_refuted": len([o for o in obls if o["kind"] == "canary" and o["status"] == "discharged"]),
-        "known_findings_confirmed": sorted(k for k in known_present if known_by_id.get(k, {}).get("property") == prop),
+        "known_findings_confirmed": sorted(k for k in known_present if prop in known_by_id.get(k, {}).get("properties", [known_by_id.get(k, {}).get("property")])),
         "bounded": bounded,
         "undecided": [o["name"] for o in undecided], "unit_errors": [u for u, _ in errors],
         "samples": samples,
